@@ -124,6 +124,10 @@ def run(ctx, rep):
     # datagram, so the connection's write must make exactly one complete-write call with exactly the bytes of one encode
     # (C06's R6.1 / R6.2, part of this property as well)
     c06.write_rules(ctx, rep)
+    # "every packet of every received datagram is delivered intact and in order, however many packets share it": the decoder
+    # must take exactly the announced frame off the buffer and parse nothing else (R4.2, shared with C04 / C05)
+    from props import c04
+    c04.decode(ctx, rep)
 
 
 APPEND = re.compile(r"BytesMut::(extend_from_slice|put_slice|put|reserve)$|Extend::extend$|BufMut::(put_slice|put)$")
